@@ -41,6 +41,10 @@ CHECKS = {
          "Writer: the output must equal a reference rendering, be accepted by the independent recognizer with identical fields (fraction truncated, Z only on request at offset 0) and parse back to the same instant and offset. Reader: parse_from_rfc3339(s).is_ok() must equal recognizer acceptance for every generated string (about a quarter accepted, three quarters rejected, most of them one edit or one out-of-range field away from a valid string), and accepted strings must evaluate to exactly the denoted value.",
          "Trusted base: harness/src/refmodel/rfc3339.rs (90 lines, written from the ABNF and the documented latitude) and R-cal. Second 60 is accepted on any minute, as the documented reader does.",
          "DESIGN.md section 3 C10"),
+ "C11": ("proptest: writer over (wall clock year 0-9999, whole-minute offset); reader over strings generated from the documented grammar with the value they denote (all optional parts, obsolete year/zone forms, comments, Unicode white-space runs), a contradicting-weekday twin, mutations and arbitrary text; oracle = generator-denoted value + independent RFC 2822 reference reader",
+         "Writer output must equal the reference rendering (correct weekday) and parse back to the same whole-second instant (second 60 preserved) and offset. Every grammar-generated string must be accepted with exactly the denoted value, both by parse_from_rfc2822 and by the Fixed::RFC2822 format item, and its twin with a contradicting weekday must be rejected. For mutated/arbitrary text only: no panic, and agreement with the reference reader when both accept (the statement claims nothing about rejection there).",
+         "Trusted base: harness/src/refmodel/rfc2822.rs (independent reader written from the grammar comment) and R-cal; the generator's intended value is cross-checked against the reference reader on every case.",
+         "DESIGN.md section 3 C11"),
  "C17": ("proptest over stamps inside/outside the i64-nanosecond window, log-uniform/tie-making/invalid spans, offsets and digit counts, differential against floor/ceil arithmetic on i128 wall-clock stamps",
          "duration_trunc/round/round_up on NaiveDateTime and DateTime<FixedOffset> must return exactly floor/ceil/nearest-ties-up multiples of the span on the wall-clock stamp with the offset kept, be idempotent while the result stays inside the window, and report DurationExceedsLimit / TimestampExceedsLimit exactly for the three stated causes, never panicking (incl. headroom wall clocks); round_subsecs/trunc_subsecs on NaiveTime, NaiveDateTime and DateTime for all digit counts with carry. Leap-second operands: no panic, valid values, sub-second idempotence only.",
          "Trusted base: i128 div_euclid arithmetic (harness/src/props/c17.rs).",
